@@ -430,7 +430,7 @@ func (ev *Evaluator) Eval(e Expr, env *Env) Val {
 			return Leaf{T: mkMul(a, b)}
 		case "/":
 			if isBV {
-				ev.fail("/ not supported in bv mode")
+				return Leaf{T: T{S: app("bvudiv", a, b), Sort: a.Sort}}
 			}
 			if a.Sort.K == SInt && b.Sort.K == SInt {
 				if a.C != nil && b.C != nil && b.C.Sign() > 0 {
@@ -442,7 +442,7 @@ func (ev *Evaluator) Eval(e Expr, env *Env) Val {
 			return Leaf{T: mkRealDiv(a, b)}
 		case "%":
 			if isBV {
-				ev.fail("%% not supported in bv mode")
+				return Leaf{T: T{S: app("bvurem", a, b), Sort: a.Sort}}
 			}
 			if a.C != nil && b.C != nil && b.C.Sign() > 0 {
 				return Leaf{T: intT(new(big.Int).Mod(a.C, b.C))}
